@@ -226,6 +226,40 @@ def history_banks(tier):
     return c05.history_banks(tier, orders=(3, 4), l2s=(False,), rates=(1000, 8000))
 
 
+def _pair_point(pt):
+    """as c06.bank_pairs, with C07's oracle and each filter's own minimal buffer width"""
+    from . import c06
+
+    ia, ib = pt
+    ba, bb = c06.PAIR_BANKS[ia], c06.PAIR_BANKS[ib]
+    if any(b.get("scale_l2_norm") or (b["name"] == "gammatone" and b.get("order", 4) < 3) for b in (ba, bb)):
+        return core.result([], nontrivial=False, obs="out_of_domain", skipped=True)
+    ra, rb = c05.build(ba), c05.build(bb)
+    if ra[0] != "ok" or rb[0] != "ok":
+        return core.result([], nontrivial=False, obs="unconstructible", skipped=True)
+    e = c05.eps()
+    viol, seen = [], set()
+    evals = 0
+    for who, bank, b in (("A", ra[1], ba), ("B", rb[1], bb), ("A", ra[1], ba)):
+        for i in sorted({0, b["num_filts"] - 1}):
+            w0 = base_width(bank, i)
+            if w0 is None or w0 > 1200:
+                continue
+            for w in (w0, w0 + 1):
+                evals += 1
+                got, _ = _eval_fw(bank, b, i, w, e)
+                for what, extra, detail in got:
+                    key = (what, who) + tuple(sorted(extra.items()))
+                    if key not in seen:
+                        seen.add(key)
+                        viol.append(core.violation(
+                            dict(c05.bank_tags(b), what=what, pair=True, second_object=(who == "B"), **extra),
+                            "banks A=%r and B=%r alive in one process, queried A, B, A: on %s %s" % (
+                                ba, bb, who, detail), dict(pair=[ia, ib])))
+    return core.result(viol, evals=evals, nontrivial_count=evals, obs=[ia, ib, len(viol) == 0],
+                       sample=dict(A=ba, B=bb))
+
+
 def subchecks(tier, seed):
     banks = lattice(tier)
     cap = W0_CAP[tier]
@@ -251,6 +285,14 @@ def subchecks(tier, seed):
                                "floor(rate/2), rate/2, rate/2 + 0.5, rate/2 + 1}" % (ODD_RATES, c05.EDGE_RATES),
                       flags="every combination inside the property's domain"),
             replay=_replay, chunk=4))
+    from . import c06
+    subs.append(core.SubCheck(
+        "bank_pairs", [(a, b) for a in range(len(c06.PAIR_BANKS)) for b in range(len(c06.PAIR_BANKS)) if a != b],
+        _pair_point,
+        "every ordered pair of bank configurations alive in ONE freshly forked process, queried A, B, A "
+        "at each filter's minimal in-domain widths; each case must satisfy C07's oracle (pairs outside the "
+        "property's domain are skipped)",
+        replay=lambda case: _pair_point(tuple(case["pair"])), chunk=1, kind="histories"))
     hist_banks = history_banks(tier)
     hist_alpha = 2 * 2 * 3
     depth = 3 if tier == "thorough" else 2
